@@ -58,10 +58,11 @@ class RootDecomposition(Function):
         if ctx.batch_shape is None:
             q_mat = q_mat.unsqueeze(-3)
             t_mat = t_mat.unsqueeze(-3)
-        if t_mat.ndimension() == 3:  # If we only used one probe vector
+        # lanczos_tridiag drops the probe dimension iff there is a single probe vector
+        n_probes = 1 if ctx.initial_vectors is None else ctx.initial_vectors.size(-1)
+        if n_probes == 1:
             q_mat = q_mat.unsqueeze(0)
             t_mat = t_mat.unsqueeze(0)
-        n_probes = t_mat.size(0)
 
         mins = to_linear_operator(t_mat)._diagonal().min(dim=-1, keepdim=True)[0].unsqueeze(-1)
         jitter_mat = (settings.tridiagonal_jitter.value() * mins) * torch.eye(
